@@ -708,6 +708,12 @@ where
                 &mut notify_change,
             )?;
 
+            // Nothing bound to a rolled-back fabric may outlive it
+            #[cfg(feature = "case-resumption")]
+            if let Some(fab_idx) = removed_fabric {
+                state.purge_resumption_for_fabric(fab_idx, &self.kv)?;
+            }
+
             // Close the commissioning window on timeout
             state
                 .pase
